@@ -201,8 +201,8 @@ func (r *watchRun) registerTx(e *evSpec, contract string) {
 	n.mu.Unlock()
 }
 
-// reobserve sends one re-observation request for tx to the life's handleObsvRequest loop and waits until it has been handled
-// (the loop takes the second, foreign-chain request only when it is back in its select).
+// reobserve hands one re-observation request for tx to the life's handleObsvRequest loop the way the dispatcher does and waits until
+// it has been handled (serveReobs: a sentinel request behind it; what else the watcher's queue holds then is recorded as stray=).
 func (r *watchRun) reobserve(tx string) {
 	g, n := r.g, r.g.node
 	if !r.reobs || r.exited {
@@ -211,8 +211,16 @@ func (r *watchRun) reobserve(tx string) {
 	txb, _ := hex.DecodeString(tx)
 	n.takeLog()
 	n.mu.Lock()
+	// the node's answers as they stand now, scripted failures included ("e")
 	status := n.status[tx]
+	if n.errs["status:"+tx] {
+		status = "e"
+	}
 	evs := n.txev[tx]
+	evtab := renderEvs(evs)
+	if n.errs["txev:"+tx] {
+		evtab = "e"
+	}
 	var hs, ms []string
 	seen := map[string]bool{}
 	for _, e := range evs {
@@ -221,28 +229,31 @@ func (r *watchRun) reobserve(tx string) {
 		}
 		seen[e.bh] = true
 		h := n.hdr[e.bh]
-		hs = append(hs, fmt.Sprintf("%s:%d:%d", e.bh, h.height, h.ts))
-		ms = append(ms, e.bh+":"+fb(n.main[e.bh]))
-	}
-	line := fmt.Sprintf("mainnet=%s ctor=%s bridge=%s gov=%s chain=255 hash=%s status=%s evs=%s hdr=%s main=%s ti=%s height=%d",
-		fb(r.c.mainnet), r.c.ctor(), hex.EncodeToString(r.c.bridge), r.c.gov, tx, status, renderEvs(evs), fjoin(hs, ","), fjoin(ms, ","), r.c.renderTiAddr(), n.height)
-	n.mu.Unlock()
-	now := time.Now().UnixMilli()
-	res := "ok"
-	send := func(req *gossipv1.ObservationRequest) bool {
-		select {
-		case r.obsC <- req:
-			return true
-		case <-r.panicC:
-			r.exited, r.panicked = true, true
-			res = "panic"
-			return false
+		if n.errs["hdr:"+e.bh] {
+			hs = append(hs, e.bh+":e")
+		} else {
+			hs = append(hs, fmt.Sprintf("%s:%d:%d", e.bh, h.height, h.ts))
+		}
+		if n.errs["main:"+e.bh] {
+			ms = append(ms, e.bh+":e")
+		} else {
+			ms = append(ms, e.bh+":"+fb(n.main[e.bh]))
 		}
 	}
-	if send(&gossipv1.ObservationRequest{ChainId: 255, TxHash: txb}) {
-		send(&gossipv1.ObservationRequest{ChainId: 0})
+	hgt := fmt.Sprint(n.height)
+	if n.errs["height"] {
+		hgt = "e"
 	}
-	g.emit("wreobs %s %s now=%d reqs=%s fwd=%s res=%s", r.id, line, now, fjoin(n.takeLog(), ","), fjoin(drainPubs(r.msgC), ","), res)
+	line := fmt.Sprintf("mainnet=%s ctor=%s bridge=%s gov=%s chain=255 hash=%s status=%s evs=%s hdr=%s main=%s ti=%s height=%s",
+		fb(r.c.mainnet), r.c.ctor(), hex.EncodeToString(r.c.bridge), r.c.gov, tx, status, evtab, fjoin(hs, ","), fjoin(ms, ","), r.c.renderTiAddr(), hgt)
+	n.mu.Unlock()
+	now := time.Now().UnixMilli()
+	stray, res := serveReobs(n, r.obsC, &gossipv1.ObservationRequest{ChainId: 255, TxHash: txb}, r.panicC)
+	if res != "ok" {
+		r.exited, r.panicked = true, true
+		res = "panic"
+	}
+	g.emit("wreobs %s %s now=%d reqs=%s fwd=%s res=%s stray=%s", r.id, line, now, fjoin(n.takeLog(), ","), fjoin(drainPubs(r.msgC), ","), res, fjoin(stray, ","))
 }
 
 func (g *fgen) metaCase(shapeIdx int, variant int) {
@@ -435,6 +446,12 @@ type tickScript struct {
 	pageSize   int
 	countErr   bool
 	pageErr    int // index of the page request that fails (-1 none)
+	// the count moves backwards: this tick's count request is answered by a backend of a load-balanced endpoint (a lagging node, a
+	// fail-over, a node that is resyncing) that holds dipBy events fewer than the node had already reported before this tick
+	// (dipBy >= what it had: none at all). With lagPages the page requests of the tick reach that backend as well - it has nothing
+	// at or beyond its own count - otherwise they are served by the healthy one.
+	dipBy    int
+	lagPages bool
 }
 
 // fetchTick releases the parked count request and follows the real loop until the tick is over.
@@ -455,13 +472,23 @@ func (r *watchRun) fetchTickEvs(sc tickScript, evs []*evSpec) {
 	total := len(evs)
 	n.mu.Lock()
 	n.events = append(n.events, evs...)
+	reported := n.visible // what count / page answers have shown so far
 	n.visible += sc.newVisible
 	n.count = n.visible
+	n.lagPages, n.lagVis = false, 0
+	if sc.dipBy > 0 {
+		n.count = reported - sc.dipBy
+		if n.count < 0 {
+			n.count = 0
+		}
+		n.lagPages, n.lagVis = sc.lagPages, n.count
+		r.dipped = true
+	}
 	n.growAfter = sc.growAfter
 	n.pageSize = sc.pageSize
 	n.pageReqs = 0
 	n.pageCap = 3*(total+2) + 20
-	if r.lives > 1 { // an incarnation that resumes from an older index may walk the whole log again
+	if r.lives > 1 || r.dipped { // a watcher that resumes from an older index may walk the whole log again
 		n.pageCap += 3 * len(n.events)
 	}
 	delete(n.errs, "count")
@@ -595,6 +622,93 @@ func (g *fgen) pipeCase(mode string) {
 	r.stop()
 }
 
+// ---------------------------------------------------------------------------------------------
+// count histories that move backwards ("no matter ... how the event count moves between requests"): a count poll answers LOWER
+// than an earlier one - by one, by a few, by everything - once, several polls in a row, or again after a recovery; the page
+// requests of such a tick reach the lagging backend too, or the healthy one; events may be appended meanwhile. Before the dip the
+// watcher has fetched events: some forwarded already, some still pending. Afterwards the count is right again. Every log position
+// is owed to the signer exactly once (poll-forwarded-twice, final-message-not-forwarded, page-gap-or-overlap).
+
+func (g *fgen) dipCase(dips []int, lagPages bool, forwardFirst bool) {
+	r := g.newWatchRun("cdip", true, g.chance(50))
+	n := g.node
+	pre := r.newEvents(g.pick(0, 2, 5), true, false) // history before the start
+	n.mu.Lock()
+	n.events = append(n.events, pre...)
+	n.visible = len(n.events)
+	n.count = n.visible
+	n.mu.Unlock()
+	r.start("")
+	h := int32(1000)
+	tickQuick := func(k int, sc tickScript) {
+		if !r.exited {
+			sc.newVisible, sc.pageErr = k, -1
+			if sc.pageSize == 0 {
+				sc.pageSize = g.pick(1, 2, 3, 100)
+			}
+			r.fetchTickEvs(sc, r.quickEvents(k))
+		}
+	}
+	height := func(drain bool) {
+		if !r.exited {
+			h++
+			r.heightTick(h, drain)
+		}
+	}
+	// the watcher has fetched a few events; with forwardFirst they have been handed to the signer before the count dips
+	tickQuick(2+g.r.Intn(4), tickScript{})
+	if g.chance(50) {
+		tickQuick(1+g.r.Intn(3), tickScript{})
+	}
+	if forwardFirst {
+		height(false)
+	}
+	for i, d := range dips {
+		if d < 0 { // a healthy poll between two dips
+			tickQuick(g.r.Intn(3), tickScript{})
+			if g.chance(50) {
+				height(false)
+			}
+			continue
+		}
+		lag := lagPages
+		if i > 0 && g.chance(25) {
+			lag = !lag
+		}
+		tickQuick(g.pick(0, 0, 1, 2), tickScript{dipBy: d, lagPages: lag})
+		if g.chance(30) {
+			height(false)
+		}
+	}
+	// the count is right again
+	for round := 0; round < 1+g.r.Intn(2); round++ {
+		tickQuick(g.r.Intn(3), tickScript{})
+		height(false)
+	}
+	if !r.exited {
+		r.fetchTickEvs(tickScript{pageSize: 100, pageErr: -1}, nil)
+	}
+	for s := 0; s < 2 && !r.exited; s++ {
+		r.settle()
+		height(true)
+	}
+	r.stop()
+}
+
+func (g *fgen) genDips(rounds int) {
+	const all = 1 << 20
+	for i := 0; i < rounds; i++ {
+		few := 2 + g.r.Intn(3)
+		for _, dips := range [][]int{{1}, {few}, {all}, {1, 1}, {few, all}, {all, all, 1}, {1, -1, 1}, {few, -1, all}, {1, few, all, -1, few}} {
+			for _, lag := range []bool{true, false} {
+				for _, fwd := range []bool{true, false} {
+					g.dipCase(dips, lag, fwd)
+				}
+			}
+		}
+	}
+}
+
 // genC09: metadata calls of every shape, page conversion, the whole polling pipeline, plus event-loop-only and
 // re-observation cases (a panic or exit there is a C09 matter as well).
 func (g *fgen) genC09() {
@@ -626,4 +740,5 @@ func (g *fgen) genC09() {
 	g.genMeta(nMeta)
 	g.genPaths(nMeta)
 	g.genPageFail(nMeta)
+	g.genDips(nMeta)
 }
